@@ -214,7 +214,7 @@ class Result:
             iv = spec_view(impl) if spec_view else impl
             if iv != spec:
                 viol = True
-                self.violations.append((req, impl, model, spec, "impl differs from spec"))
+                self.violations.append((req, impl, model, spec, "impl differs from spec; impl as seen by the spec: " + str(iv)[:400]))
         if impl != model:
             self.model_diffs.append((req, impl, model))
         return viol
